@@ -163,7 +163,7 @@ def main():  # noqa: PLR0912, PLR0915
     open_findings = [f for f in findings["findings"] if f["property"] == prop and f["status"] == "open"]
     names = sorted(n for n, c in harness.REGISTRY.items() if prop in c.props and (tier == "thorough" or c.tier == "quick"))
     skipped = sorted(n for n, c in harness.REGISTRY.items() if prop in c.props and tier == "quick" and c.tier != "quick")
-    timeout_ms = 10000 if tier == "quick" else 60000
+    timeout_ms = 10000 if tier == "quick" else 20000
     jobs = []
     for n in names:
         carve_ids = [f["carveout"] for f in findings["findings"] if f["status"] == "open" and n in f.get("contracts", []) and f.get("carveout")]
